@@ -7,7 +7,9 @@
 // (all compression levels, including stored blocks whose wire size exceeds the decoded size while
 // the decoded size is <= L, and highly compressible 2L bodies whose wire size is <= L); organization /
 // bucket named by name or id, or unknown / missing; the writer answers nil, a PartialWriteError with a
-// drawn dropped count, or another error.
+// drawn dropped count, or another error; the handler reaches the writer directly or - as in the
+// server - through storage.LoggingPointsWriter, whose log bucket exists / is missing / cannot be looked
+// up / refuses the log point (logging_test.go).
 //
 // Oracle (from the statement):
 //   - any damaged line (size <= L, known target)  => 400, the message contains the text of every damaged
@@ -17,7 +19,8 @@
 //   - otherwise the writer received exactly the model points (multiset; name, tags, typed fields,
 //     time scaled by the precision) for the resolved organization and bucket, and the answer is 204
 //     written after the writer returned — or, when the writer returned an error, a non-2xx answer
-//     that, for a partial write, states the dropped count.
+//     that, for a partial write, states the dropped count (behind the logging writer as well, as long
+//     as the logging itself succeeds; a "write_errors" point goes to the log bucket then, and only then).
 //   - in every case: a 2xx answer implies that the writer completed with all points before the status
 //     line was written.
 package c32_writeapi
@@ -39,6 +42,9 @@ import (
 const keyAtLimit = "body-at-limit-rejected"
 
 var recIDs = fixtureIDs{org: platform.ID(0x043e0780ee2b1000), bucket: platform.ID(0x04504b356e23b000)}
+
+// recLogBucket is the organization's _monitoring bucket in mode (a).
+const recLogBucket = platform.ID(0x04504b356e23b001)
 
 type reqCase struct {
 	B       *body
@@ -180,6 +186,7 @@ func multisetDiff(want, got []string) string {
 
 func TestPropRecordingWriter(t *testing.T) {
 	rec.Assume("mode (a): organization / bucket services and the authorizer are mocks that know one organization and one bucket; the event recorder is a no-op")
+	rec.Assume("both modes: the handler's points writer is the raw writer or, as in cmd/influxd/launcher, storage.LoggingPointsWriter around it; every organization has its _monitoring system bucket (tenant service creates it and refuses to delete or rename it) - when the error logging itself fails (mode (a): bucket missing, lookup error, log write refused) only 'not 2xx' is demanded of the answer, not the dropped count")
 	rec.Check(t, 8000, 240000, func(t *rapid.T) {
 		b := genLines(t, true,
 			func(i int, p *pt, prec string) {
@@ -200,17 +207,33 @@ func TestPropRecordingWriter(t *testing.T) {
 			wantDropped = rapid.IntRange(101, 999).Draw(t, "writer_dropped")
 			w.result = tsdb.PartialWriteError{Reason: "some points were refused", Dropped: wantDropped}
 		}
-		h := newHandler(w, recIDs, int64(c.L))
+		// the wiring between handler and writer: raw, or the server's LoggingPointsWriter (logging_test.go)
+		lf := &logFinder{org: recIDs.org, logID: recLogBucket, wiring: genWiring(t, true)}
+		if lf.wiring != wireRaw {
+			w.logBucket = recLogBucket
+		}
+		if lf.wiring == wireLogWriteFail {
+			if rapid.Bool().Draw(t, "log_write_partial") {
+				w.logResult = tsdb.PartialWriteError{Reason: "field type conflict", Dropped: 1}
+			} else {
+				w.logResult = fmt.Errorf("engine refused the log write")
+			}
+		}
+		h := newHandler(wire(w, lf), recIDs, int64(c.L))
 		res := post(h, w, c.Tg, b.Prec, c.Wire, c.Gzip)
 
 		rec.Eval()
 		oversize, hasDamaged := c.classify("rec")
+		rec.Class("rec:wiring:" + wiringNames[lf.wiring])
 		if rec.WantSample() && (hasDamaged || oversize) && len(c.Text) < 300 {
 			rec.Sample(map[string]any{"request": c.json(), "status": res.Status, "answer": res.Raw})
 		}
 		fail := func(key, detail string) {
 			cj := c.json()
-			cj["status"], cj["answer"] = res.Status, res.Raw
+			cj["status"], cj["answer"], cj["wiring"] = res.Status, res.Raw, wiringNames[lf.wiring]
+			if w.result != nil {
+				cj["writer_result"] = w.result.Error()
+			}
 			rec.Fail(t, "TestPropRecordingWriter", key, detail, cj)
 		}
 
@@ -278,7 +301,16 @@ func TestPropRecordingWriter(t *testing.T) {
 			want = append(want, p.canon())
 		}
 		var got, flat []string
+		nLogCalls := 0
 		for _, call := range calls {
+			if lf.wiring != wireRaw && call.org == recIDs.org && call.bucket == recLogBucket && isLogPoint(call.points) {
+				// the error log of the LoggingPointsWriter: only after the batch's own write failed, once
+				nLogCalls++
+				if w.result == nil || nLogCalls > 1 {
+					fail("unexpected-error-log", fmt.Sprintf("%d write(s) of a %s point into the log bucket; the batch's own write returned %v", nLogCalls, logMeasurement, w.result))
+				}
+				continue
+			}
 			if call.org != recIDs.org || call.bucket != recIDs.bucket {
 				fail("wrong-destination", fmt.Sprintf("points written to org %s bucket %s", call.org, call.bucket))
 			}
@@ -306,6 +338,32 @@ func TestPropRecordingWriter(t *testing.T) {
 				fail("stored-points-differ", "points handed to the points writer differ from the request (times): "+d)
 			}
 		}
+		if lf.badFilter != "" {
+			fail("log-bucket-lookup", "the log bucket was looked up with filter "+lf.badFilter)
+		}
+		// What the error-logging path may do to the answer. With the log bucket in place and the log
+		// write succeeding, the client must get the batch's own error (LoggingPointsWriter: "Errored
+		// writes from here will be logged"). When the logging itself fails (no _monitoring bucket -
+		// the tenant service creates one with every organization and refuses to delete or rename it -,
+		// bucket lookup error, failing log write) the product answers with the logging error; there
+		// only "not 2xx" is demanded, not the dropped count.
+		loggingFailed := lf.wiring == wireNoLogBucket || lf.wiring == wireFinderError || lf.wiring == wireLogWriteFail
+		if w.result != nil && len(want) > 0 {
+			switch {
+			case lf.wiring == wireLogging:
+				if wantDropped > 0 {
+					rec.Class("rec:logged-write-error:partial-write")
+				} else {
+					rec.Class("rec:logged-write-error:other")
+				}
+				rec.NonTrivial("rec-logged|" + c.canon())
+				if nLogCalls != 1 {
+					fail("write-error-not-logged", fmt.Sprintf("the batch's write failed (%v) but %d %s points were written to the log bucket", w.result, nLogCalls, logMeasurement))
+				}
+			case loggingFailed:
+				rec.Class("rec:logging-failed:only-non-2xx-demanded")
+			}
+		}
 		switch {
 		case w.result == nil:
 			rec.Class("rec:outcome:204")
@@ -320,7 +378,7 @@ func TestPropRecordingWriter(t *testing.T) {
 			if res.Status >= 200 && res.Status < 300 && len(want) > 0 {
 				fail("partial-write-reported-success", fmt.Sprintf("status %d although the writer dropped %d points", res.Status, wantDropped))
 			}
-			if len(want) > 0 {
+			if len(want) > 0 && !loggingFailed {
 				if stated, ok := statedDropped(res.Msg, wantDropped); !ok {
 					fail("dropped-count-not-stated", fmt.Sprintf("the writer dropped %d points; the answer states %v: %s", wantDropped, stated, res.Raw))
 				}
